@@ -474,6 +474,71 @@ func (r *rxRunner) runUntil(id int, resp []byte, cuts []int, fresh bool, eedHook
 	return nil
 }
 
+// runReqResp: a request / response round through the transport.  The client sends a request with
+// SendPackage; the peer answers as soon as it has the request's last packet - while the client's
+// Write call of that packet has not returned yet (a slow network write) - so the response is parsed
+// before the send call comes back.  Then the consumer reads up to the final DONE.
+func (r *rxRunner) runReqResp(id int, resp []byte, cuts []int, fresh bool) error {
+	if r.stuck {
+		fresh = true
+	}
+	if fresh {
+		if err := r.fresh(true, 1); err != nil {
+			return err
+		}
+	}
+	r.tr.Emit(Ev{"ev": "Run", "resp": id, "mode": "frag", "fresh": fresh, "via": "reqresp"})
+	if fresh {
+		r.addHooks(1, 1)
+	}
+	fed := false
+	mc := r.mc
+	mc.onWrite = func(b []byte) {
+		if fed || len(b) < 8 || b[1]&1 == 0 {
+			return
+		}
+		fed = true
+		from := 0
+		bounds := append(append([]int{}, cuts...), len(resp))
+		for bi, to := range bounds {
+			st := 0
+			if bi == len(bounds)-1 {
+				st = 1
+			}
+			r.tr.Emit(Ev{"ev": "Packet", "from": from, "to": to, "eom": st == 1})
+			mc.Feed(mkPacket(4, st, 0, 0, resp[from:to]))
+			from = to
+		}
+		time.Sleep(20 * time.Millisecond) // the Write call returns late: the answer is already being parsed
+	}
+	sctx, scancel := context.WithTimeout(context.Background(), 3*time.Second)
+	err := r.ch.SendPackage(sctx, &tds.LanguagePackage{Cmd: "select 1"})
+	scancel()
+	mc.onWrite = nil
+	if err != nil {
+		r.tr.Emit(Ev{"ev": "RecvErr", "class": "err", "text": "send: " + err.Error()})
+	}
+	for {
+		ctx, cancel := context.WithTimeout(context.Background(), 3*time.Second)
+		pkg, err := r.ch.NextPackage(ctx, true)
+		cancel()
+		if err != nil {
+			if recvErrClass(err) == "ctx" {
+				r.lates++
+			}
+			r.tr.Emit(Ev{"ev": "RecvErr", "class": recvErrClass(err), "text": err.Error()})
+			break
+		}
+		r.recv(pkg)
+		if d, ok := pkg.(*tds.DonePackage); ok && d.Status == tds.TDS_DONE_FINAL {
+			break
+		}
+	}
+	r.drain()
+	r.runEnd()
+	return nil
+}
+
 type failErr struct{ kind string }
 
 func (e failErr) Error() string   { return "read: " + e.kind }
@@ -838,6 +903,7 @@ func rxMain(args []string) error {
 	nuntil := fs.Int("until", 0, "multi-round scenarios consumed with NextPackageUntil")
 	untilScn := fs.String("untilscn", "", "consumer behaviours generated by TLC from Until.tla")
 	nkinds := fs.Int("kinds", 0, "per package kind: this many one-package responses, every 1-cut each")
+	nreqresp := fs.Int("reqresp", 0, "request / response rounds through the transport (the answer arrives before the send call returns)")
 	nerrorder := fs.Int("errorder", 0, "stress trials: a consumer polling while a complete packet is followed at once by the end of the stream")
 	nfail := fs.Int("fail", 0, "responses for the transport-failure driver (every byte offset)")
 	failTimeout := fs.Int("failtimeout", 0, "PacketReadTimeout (s) for the failure driver")
@@ -1200,6 +1266,30 @@ func rxMain(args []string) error {
 		}
 	}
 
+
+	for i := 0; i < *nreqresp; i++ {
+		if r.lates >= 6 {
+			break
+		}
+		tr.Reset(map[string]interface{}{"driver": "reqresp", "seed": *seed, "i": i})
+		nr := 2 + rng.Intn(2)
+		var resps [][]wPkg
+		for k := 0; k < nr; k++ {
+			ps := randResponse(rng, 20, 0)
+			resps = append(resps, ps)
+			r.resp(k+1, ps)
+			if err := r.runDirect(k+1, respBytes(ps), nil, "ref", true, 1, 1); err != nil {
+				return err
+			}
+		}
+		for k, ps := range resps {
+			resp := respBytes(ps)
+			if err := r.runReqResp(k+1, resp, randCuts(rng, rng.Intn(3), len(resp)), k == 0); err != nil {
+				return err
+			}
+		}
+		r.mc.Close()
+	}
 
 	if *untilScn != "" {
 		b, err := os.ReadFile(*untilScn)
